@@ -129,6 +129,7 @@ class Sim:
         self.io = None  # persist.IO, attached by runner when needed
         self.restarts = 0
         self.recent: list = []
+        self.seg_ref = None  # copy of the label image taken at the first export after a change
         self.npt = None
         if world.get("np_client"):
             self.npt = np.dtype(world["dtype"]).type if world["seg"] else np.int64
@@ -442,6 +443,10 @@ class Sim:
             return out
         tr = self.tracks
         kind = op["op"]
+        if op.get("motif"):
+            self.count("motif_started")
+        if kind not in ("export", "save", "query"):
+            self.seg_ref = None
         handler = getattr(self, "op_" + kind)
         need_deep = self.active("C11") or (self.active("C16") and kind in ("query", "export", "save")) or (
             self.active("C10") and kind in ("enable", "disable", "update_attrs")
@@ -658,6 +663,16 @@ class Sim:
                 self.stat("C09.eval")
         if self.active("C10"):
             self._check_c10(op, out, pre)
+            if self.with_seg and tr.segmentation is not None and changed_state and kind not in ("enable", "disable") and not self.violations:
+                # "once enabled ... equal the reference values for the current state": not
+                # only at the moment of enabling but after every later edit, undo and redo
+                res = oracles.node_measurements(tr, None, "C10", active=self.model_active)
+                res = res or (self._shape_check() or [])
+                res = res or oracles.iou_values(tr, "C10", "values", active=self.model_active)
+                for _, m in res:
+                    self.violate("C10", "C10.values", f"after {kind}: a feature that is enabled no longer equals its reference: {m}", op, tags)
+                    return
+                self.stat("C10.values_after_step")
         self._account(op, out, pre, post, is_edit, changed_state)
         if self._pending_abort and not self.violations:
             reason, detail = self._pending_abort
